@@ -99,6 +99,14 @@ def runProg (sc : Scenario) (p : List Stmt) : List Ev :=
 
 def count (e : Ev) (l : List Ev) : Nat := l.count e
 
+/-- what a caller can observe of a trace: a nil dereference in a deferred call while already panicking from a
+nil dereference replaces the first panic, so a run of `nilDeref`s shows as one (used only when comparing with
+real runs; `conformsTrace` rejects either form) -/
+def observable : List Ev → List Ev
+  | .nilDeref :: .nilDeref :: r => observable (.nilDeref :: r)
+  | e :: r => e :: observable r
+  | [] => []
+
 /-- **the property's sentence on a trace**: entry asked first; blocked ⇒ handler not run, rejection produced,
 nothing to exit; admitted ⇒ handler exactly once, exit exactly once and after the handler (on ok / err /
 panic), no rejection, and an error handed back by the framework is traced (before the exit). -/
@@ -113,6 +121,12 @@ def conformsTrace (sc : Scenario) (tr : List Ev) : Bool :=
      tr.getLast? = some .exit)
 
 def conforms (p : Prog) (sc : Scenario) : Bool := conformsTrace sc (runProg sc p.body)
+
+/-- top-level statements that neither defer the exit nor call the handler -/
+def plainStmt : Stmt → Bool
+  | .deferExit => false
+  | .callNext _ _ => false
+  | _ => true
 
 def scenarios : List Scenario :=
   [⟨true, .ok⟩, ⟨true, .err⟩, ⟨true, .panic⟩, ⟨false, .ok⟩, ⟨false, .err⟩, ⟨false, .panic⟩]
